@@ -69,7 +69,15 @@ def gen_leaf(r, ty, conflict):
     k, lb, ub = ty[l]
     if conflict and r.random() < .5:
         m = r.random()
-        if m < .5 or k in 'SB':
+        if m < .3:
+            # a different vartype over the *same* bounds: Spin('a') vs Integer('a', -1, 1), Binary vs Integer(0, 1), INTEGER vs REAL
+            k2 = r.choice([x for x in 'IR' if x != k])
+            if k == 'S':
+                lb, ub = F(-1), F(1)
+            elif k == 'B':
+                lb, ub = F(0), F(1)
+            k = k2
+        elif m < .6 or k in 'SB':
             k2 = r.choice([x for x in KINDS if x != k])
             k, lb, ub = k2, (F(0) if k2 in 'IR' else None), None
         elif m < .75:
@@ -602,6 +610,65 @@ def run(ctx):
                     nprop += 1
             if node[0] in BIN2 + ('Q3',) and kind == 'err' and conflict_labels(ev, node):
                 ctx.tick('conflict_rejected')
+        # products of two models: shared labels, and shared labels whose coefficient in the right operand is not that operand's last
+        for node in subtrees(t, []):
+            if node[0] in ('MUL', 'IMUL') and all(ev.res.get(id(c), ('err',))[0] == 'ok' for c in node[1:]):
+                la, lb_ = (ev.res[id(c)][3][1] for c in node[1:])
+                shared = [v for v in la if v in lb_]
+                if shared:
+                    ctx.tick('mul: operands share a label')
+                    if lb_ and any(lb_[v] != list(lb_.values())[-1] for v in shared):
+                        ctx.tick('mul: shared label, coefficient != last coefficient of the right operand')
+                    ia, ib = (ev.res[id(c)][3][0] for c in node[1:])
+                    if any(ia[v][0] != ib[v][0] and ia[v][1:] == ib[v][1:] for v in shared):
+                        ctx.tick('mul: shared label, different vartype over identical bounds')
+        # a comparison with a number at the root (dimod.sym): Le / Ge / Eq objects
+        if ev.res.get(id(t), ('err',))[0] == 'ok' and r.random() < .35:
+            obj, osnap, co = ev.res[id(t)][1:4]
+            kind = r.choice(['LE', 'GE', 'EQ', 'RLE', 'RGE', 'REQ'])
+            q = dy(r, True)
+            qq = int(q) if q.denominator == 1 and r.random() < .6 else float(q)
+            ops = {'LE': lambda: obj <= qq, 'GE': lambda: obj >= qq, 'EQ': lambda: obj == qq,
+                   'RLE': lambda: qq <= obj, 'RGE': lambda: qq >= obj, 'REQ': lambda: qq == obj}
+            sym = {'LE': '{e} <= {q}', 'GE': '{e} >= {q}', 'EQ': '{e} == {q}', 'RLE': '{q} <= {e}', 'RGE': '{q} >= {e}', 'REQ': '{q} == {e}'}[kind]
+            csrc = sym.format(e=pyexpr(t), q=repr(qq))
+            if isinstance(obj, np.floating):
+                obj = float(obj)
+            try:
+                res = ops[kind]()
+            except TypeError:
+                res = TypeError
+            ln = f'CMP {kind} {rat(q)} {line_of(t)}'
+            lines.append(ln); meta.append(('comparison ' + kind, csrc))
+            ctx.tick('CMP ' + kind + (':type' if res is TypeError else ''))
+            ctx.case(ln, nontrivial=True)
+            if res is TypeError:
+                expect.append('err type')
+            elif isinstance(res, dimod.sym.Comparison):
+                sense = {'Le': 'le', 'Ge': 'ge', 'Eq': 'eq'}[type(res).__name__]
+                expect.append(f'ok cmp {sense} {rat(res.rhs)} ' + snap(res.lhs))
+                # predicate: activity and truth value against the arithmetic of the written comparison
+                rco = coeffs(res.lhs)
+                labels = sorted(rco[0], key=repr)
+                doms = [domain(*rco[0][l]) for l in labels]
+                for n_s, vals in enumerate(itertools.product(*doms)):
+                    if n_s >= 60:
+                        break
+                    x = dict(zip(labels, vals))
+                    a = model_energy(rco, x)
+                    e = tree_eval(t, {**{lf[2]: F(0) for lf in leaves(t, [])}, **x})
+                    written = {'LE': e <= q, 'GE': e >= q, 'EQ': e == q, 'RLE': q <= e, 'RGE': q >= e, 'REQ': q == e}[kind]
+                    held = {'le': a <= F(res.rhs), 'ge': a >= F(res.rhs), 'eq': a == F(res.rhs)}[sense]
+                    if a - F(res.rhs) != e - q or written != held:
+                        xs = {l: (int(v) if v.denominator == 1 else float(v)) for l, v in x.items()}
+                        ctx.fail('property', 'comparison ' + kind, 'activity' if a - F(res.rhs) != e - q else 'sense',
+                                 f'`{csrc}` gives {type(res).__name__} with lhs-rhs = {a - F(res.rhs)} at {xs}; the operands give {e - q} and the written comparison is {written}',
+                                 repro=PRE + f'c = {csrc}\nx = {xs!r}\nx = {{k: F(v) for k, v in x.items()}}\n'
+                                             f"a = energy(c.lhs, x) - F(c.rhs)\nassert a == F({str(e - q)!r}) and {{'<=': a <= 0, '>=': a >= 0, '==': a == 0}}[c.sense.value] == {written}, (c, a)\n")
+                        nprop += 1
+                        break
+            else:
+                expect.append('ok bool')
         if nprop >= 8:
             break
     got = run_driver('symdriver', lines)
